@@ -209,12 +209,32 @@ func cmdCheck(args []string) int {
 	for i := range hs {
 		q.put(job{harness: hs[(i+seed)%len(hs)]})
 	}
+	stopProg := make(chan struct{})
+	if os.Getenv("GOSMT_PROGRESS") != "" {
+		go func() {
+			for {
+				select {
+				case <-stopProg:
+					return
+				case <-time.After(5 * time.Second):
+					R.mu.Lock()
+					var parts []string
+					for h, st := range R.PerHarness {
+						parts = append(parts, fmt.Sprintf("%s=%d", h, st.Paths))
+					}
+					fmt.Fprintf(os.Stderr, "progress t=%.0fs paths=%d %v\n", time.Since(t0).Seconds(), R.Paths, parts)
+					R.mu.Unlock()
+				}
+			}
+		}()
+	}
 	var wg sync.WaitGroup
 	for w := 0; w < cfg.Workers; w++ {
 		wg.Add(1)
 		go worker(w, P, q, R, cfg, &wg)
 	}
 	wg.Wait()
+	close(stopProg)
 	exploreS := time.Since(t0).Seconds() - loadS
 
 	// vacuity: every reach label of every harness must have been reached
@@ -400,7 +420,7 @@ func buildCoverage(P *Program, R *Results, hs []string, cfg Config, tier string,
 		"paths_dropped_by_assume":       R.PathsDropped,
 		"reach_labels":                  R.Reach,
 		"queries": map[string]interface{}{
-			"total": R.Solver.Queries, "feasibility": R.Feasibility, "assertion": R.AssertQueries,
+			"total": R.Solver.Queries, "feasibility": R.Feasibility, "feasibility_answered_by_model_cache": R.CacheHits, "assertion": R.AssertQueries,
 			"sat": R.Solver.Sat, "unsat": R.Solver.Unsat, "unknown": R.Solver.Unknown, "errors": R.Solver.Errors,
 		},
 		"solver":                   cfg.Solver,
